@@ -476,6 +476,12 @@ EXTRA5 = {
  "C17": dict(
   technique="; whole log lists behind one distributor (DistributorList.tla: four logs x state x interval x get-roots answer per refresh history x constructor option x policy x method; families R / T / H exhaustive, 12800 cases, S simulated) replayed on NewDistributor(+options) / RefreshRoots / AddChain | AddPreChain under virtual time",
   note=" Named clauses KnownByLastRefresh, OptionKnowsNothing, PendingLoad; every log answers add-chain at once in the list cases."),
+ "C06": dict(
+  technique="; spec/client/LogInfoClient.tla: one ctutil.LogInfo shared by goroutines against a growing, failing, lying log (calls = Begin / cache read / get-sth served / store / get-proof-by-hash served / Return, the cached STH replaced between any two steps; NeverMissing, SoundIndex, CacheLaw, FetchOnlyWhenNeeded, Terminates; exhaustive for two goroutines, a model defect refuted), simulated behaviours replayed through gates in the RoundTripper under a real client.LogClient (go1.26 synctest, -race), free runs validated by LogInfoClientTrace.tla",
+  note=" Shared-LogInfo schedules: exhaustive for 2 goroutines x 2-3 calls x log <= 3 in the model, bound by seeded simulation with 3 goroutines plus trace validation; named clauses LastSetWins, FetchOnlyWhenNeeded, HandedOutStable."),
+ "C15": dict(
+  technique="; the connection string as a shape (9 leading-word classes x 0 / 1 / 2+ separators x place of the surplus separator x the driver's view of the DSN; 162 shapes, exhaustive x backend x 4 bases, every concrete spelling validated); 'usable' is decided by the repository's own storage constructors up to dialling (klog.OsExit and the MySQL dial hook intercepted) and cross-checked against the specification's StorageOpens; the validated configuration must carry backend and string verbatim",
+  note=" Instances for the external backend are not built; 'usable' stops at the point of dialling."),
 }
 for _pid, _e in EXTRA5.items():
     EXTRA4.setdefault(_pid, {})
